@@ -7,6 +7,12 @@ mod c14;
 mod c17;
 mod c18;
 mod c19;
+mod dec;
+mod e1;
+mod e1checks;
+mod ops;
+mod snapshot;
+mod spec;
 mod medium;
 mod report;
 mod val;
@@ -33,6 +39,7 @@ fn main() {
                 "C17" => c17::replay(r),
                 "C18" => c18::replay(r),
                 "C19" => c19::replay(r),
+                "C01" | "C03" | "C04" | "C05" | "C08" | "C10" | "C11" if r["kind"] == "e1-history" => e1::replay_history(r),
                 other => println!("no replayer for {}", other),
             }
             0
@@ -51,6 +58,11 @@ fn main() {
                 "C17" => c17::run(tier),
                 "C18" => c18::run(tier),
                 "C19" => c19::run(tier),
+                "C01" => e1checks::run_c01(tier),
+                "C03" => e1checks::run_c03(tier),
+                "C04" => e1checks::run_c04(tier),
+                "C05" => e1checks::run_c05(tier),
+                "C08" => e1checks::run_c08(tier),
                 _ => {
                     eprintln!("unknown check {}", id);
                     2
